@@ -1116,7 +1116,210 @@ def scenario_refnames(exe, mode_arg, payload):
     print('no failing input among %d configurations' % n)
 
 
-SCENARIOS = {'runs': scenario_runs, 'config': scenario_config, 'determinism': scenario_determinism, 'robust': scenario_robust, 'unsupported': scenario_unsupported, 'multifile': scenario_multifile, 'wellformed': scenario_wellformed, 'refnames': scenario_refnames}
+# ------------------------------------------------------------------------------------------------ C13: the target list as the command line gives it
+TOS_SRC = ('#[typeshare]\n#[cfg(target_os = "android")]\npub struct OnlyAndroid { pub a: u32 }\n#[typeshare]\n#[cfg(not(target_os = "ios"))]\npub struct NotIos { pub a: u32 }\n'
+           '#[typeshare]\n#[cfg(any(target_os = "ios", target_os = "macos"))]\npub struct Apple { pub a: u32 }\n#[typeshare]\npub struct Always { pub a: u32, #[cfg(target_os = "linux")] pub only_linux: u32 }\n'
+           '#[typeshare]\n#[cfg(feature = "x")]\npub struct OtherCfg { pub a: u32 }\n')
+# (arguments, names that must be generated, names that must not)
+TOS_CASES = [
+    ([], ['OnlyAndroid', 'NotIos', 'Apple', 'Always', 'only_linux', 'OtherCfg'], []),
+    (['--target-os=android,ios'], ['OnlyAndroid', 'Apple', 'Always', 'OtherCfg'], ['NotIos', 'only_linux']),
+    (['--target-os', 'android', '--target-os', 'ios'], ['OnlyAndroid', 'Apple', 'Always', 'OtherCfg'], ['NotIos', 'only_linux']),
+    (['-t', 'linux,macos'], ['NotIos', 'Apple', 'Always', 'only_linux', 'OtherCfg'], ['OnlyAndroid']),
+    (['--target-os=windows'], ['NotIos', 'Always', 'OtherCfg'], ['OnlyAndroid', 'Apple', 'only_linux']),
+]
+
+
+def targetos_case(exe, k):
+    targs, must, must_not = TOS_CASES[k]
+    top = tempfile.mkdtemp(prefix='clirun-', dir=WORK)
+    try:
+        src = os.path.join(top, 'src')
+        tree(src, {'c/src/lib.rs': TOS_SRC})
+        outp = os.path.join(top, 'out.ts')
+        rc, out = run(exe, ['--lang', 'typescript', '--output-file', outp, src] + targs, cwd=src, timeout=20)
+        if rc != 0 or not os.path.exists(outp):
+            return None if (rc == 'timeout' or 'panicked at' in out) else 'the run failed (rc=%s): %s' % (rc, ' '.join(out.split())[-160:])
+        text = open(outp).read()
+        for n in must:
+            if not re.search(r'\b%s\b' % n, text):
+                return 'with `%s` the item `%s` is not generated although the documented rule keeps it' % (' '.join(targs) or '(no --target-os)', n)
+        for n in must_not:
+            if re.search(r'\b%s\b' % n, text):
+                return 'with `%s` the item `%s` is generated although the documented rule excludes it' % (' '.join(targs), n)
+        return None
+    finally:
+        shutil.rmtree(top, ignore_errors=True)
+
+
+def scenario_targetos(exe, mode_arg, payload):
+    """C13 bound (command line): ONE source (types guarded by target_os, not(target_os), any(..), a guarded field, another cfg predicate) x 5 ways of
+    giving the target list - none, the documented comma separated form, the repeated option, the short option, a list naming none of the guards:
+    exactly the items the documented rule keeps are generated."""
+    if mode_arg == 'check':
+        m = targetos_case(exe, payload['case'])
+        if m:
+            witness(payload, m)
+        print('input passes'); return
+    for k in range(len(TOS_CASES)):
+        m = targetos_case(exe, k)
+        if m:
+            witness({'case': k, 'args': TOS_CASES[k][0]}, m)
+    print('no failing input among %d command lines' % len(TOS_CASES))
+
+
+# ------------------------------------------------------------------------------------------------ C12 (Python, by CPython's parser) / C20 (Go acronyms) / C04 (payloads, overrides)
+PY_HELPERS = {'datetime', 'List', 'Dict', 'Optional', 'Union', 'Literal', 'Annotated', 'TypeVar', 'Generic', 'BaseModel', 'Field', 'ConfigDict', 'BeforeValidator',
+              'PlainSerializer', 'AnyUrl', 'Enum', 'json'}
+EXTRA_CFG = ('[python.type_mappings]\n"NaiveDateTime" = "datetime"\n"Blob" = "bytes"\n[typescript.type_mappings]\n"NaiveDateTime" = "string"\n"Blob" = "string"\n'
+             '[kotlin.type_mappings]\n"NaiveDateTime" = "String"\n"Blob" = "String"\n[swift.type_mappings]\n"NaiveDateTime" = "String"\n"Blob" = "String"\n'
+             '[scala.type_mappings]\n"NaiveDateTime" = "String"\n"Blob" = "String"\n[go.type_mappings]\n"NaiveDateTime" = "string"\n"Blob" = "string"\n[go]\nuppercase_acronyms = ["ID", "URL"]\n')
+EXTRA_SRC = ('#[typeshare]\npub struct Ev { pub at: NaiveDateTime, pub seen: Option<NaiveDateTime>, pub id: UserId, pub b: Blob, #[serde(default)] pub later: NaiveDateTime }\n'
+             '#[typeshare]\npub struct UserId { pub v: u32, pub home_url: String }\n#[typeshare]\npub type Owner = UserId;\n#[typeshare]\npub type Members = Vec<UserId>;\n'
+             '#[typeshare]\npub type ByUrl = HashMap<String, Option<UserId>>;\n'
+             '#[typeshare]\n#[serde(tag = "t", content = "c")]\npub enum Pay { Name(Option<String>), Nick(Option<Option<String>>), Plain(String), Who(UserId), S { a: Option<u32>, b: Option<Option<u32>>, c: u32 } }\n'
+             '#[typeshare]\npub struct Ovr {\n'
+             '    #[typeshare(typescript(type = "Date"), kotlin(type = "Instant"), swift(type = "Date"), scala(type = "Instant"), go(type = "time.Time"), python(type = "datetime"))]\n    pub expires_at: Option<String>,\n'
+             '    #[typeshare(typescript(type = "Date"), kotlin(type = "Instant"), swift(type = "Date"), scala(type = "Instant"), go(type = "time.Time"), python(type = "datetime"))]\n    pub created_at: String,\n'
+             '    #[serde(default)]\n    #[typeshare(typescript(type = "Date"), kotlin(type = "Instant"), swift(type = "Date"), scala(type = "Instant"), go(type = "time.Time"), python(type = "datetime"))]\n    pub touched_at: String,\n}\n')
+
+
+def py_helper_names(text):
+    """helper names (C12's list) that the module uses as plain names without importing or defining them; needs the module to parse"""
+    import ast
+    tree_ = ast.parse(text)
+    have = set()
+    for node in ast.walk(tree_):
+        if isinstance(node, (ast.Import, ast.ImportFrom)):
+            have.update((a.asname or a.name).split('.')[0] for a in node.names)
+        elif isinstance(node, (ast.ClassDef, ast.FunctionDef)):
+            have.add(node.name)
+        elif isinstance(node, ast.Assign):
+            have.update(t.id for t in node.targets if isinstance(t, ast.Name))
+    used = {n.id for n in ast.walk(tree_) if isinstance(n, ast.Name) and isinstance(n.ctx, ast.Load)}
+    # annotations are strings under `from __future__ import annotations`? no: they are expressions in the AST, so they are covered by the walk above
+    return sorted((used & PY_HELPERS) - have)
+
+
+def extras_case(exe, lang, ext, largs):
+    """-> None or a message (one source + configuration file, language-specific expectations named in the scenario's bound)"""
+    top = tempfile.mkdtemp(prefix='clirun-', dir=WORK)
+    try:
+        src = os.path.join(top, 'src')
+        tree(src, {'c/src/lib.rs': EXTRA_SRC})
+        cfgp = os.path.join(top, 'typeshare.toml')
+        with open(cfgp, 'w') as f:
+            f.write(EXTRA_CFG)
+        outp = os.path.join(top, 'out.' + ext)
+        rc, out = run(exe, ['-c', cfgp, '--lang', lang] + largs + ['--output-file', outp, src], cwd=src, timeout=20)
+        if rc != 0 or not os.path.exists(outp):
+            return None if (rc == 'timeout' or 'panicked at' in out) else 'the run failed on a supported input (rc=%s): %s' % (rc, ' '.join(out.split())[-200:])
+        text = open(outp, encoding='utf-8').read()
+        code = strip_noncode(lang, text)
+        if lang == 'python':
+            try:
+                missing = py_helper_names(text)
+            except SyntaxError as ex:
+                return 'CPython does not parse the generated module: %s' % ex.msg
+            if missing:
+                return '(C12) the generated Python module uses %s without importing or defining it' % ', '.join('`%s`' % m for m in missing)
+        if lang == 'go':
+            m = re.search(r'\b\w*(?:Id|Url)\b', re.sub(r'(?m)^\s*//.*$', '', code))
+            if m and not re.search(r'json:"', m.group(0)):
+                return '(C20) uppercase_acronyms = ["ID", "URL"] is configured but the generated Go code still spells `%s`' % m.group(0)
+        if lang == 'typescript':
+            if not re.search(r't: "Nick", c\?: string \| null', text) or re.search(r't: "Name", c\?: string \| null', text):
+                return '(C04) the payloads Option<String> and Option<Option<String>> of two newtype variants are not kept apart: %s' % ' '.join(re.findall(r'\{ t: "N\w+", [^}]*\}', text))
+        # C04 with a per-language type override: optional exactly for Option<T> / serde(default), whatever the override says
+        want = {'expires_at': True, 'created_at': False, 'touched_at': True}
+        for field, opt in want.items():
+            line = next((l for l in (text if lang == 'go' else code).splitlines() if re.search(r'\b%s\b|\b%s\b' % (field, ''.join(w.capitalize() for w in field.split('_'))), l)
+                         and not re.search(r'self\.|init\(|case |CodingKeys', l)), None)
+            if line is None:
+                continue
+            marked = {'typescript': '?:' in line, 'kotlin': '? = null' in line or '?=' in line, 'swift': line.rstrip().endswith('?'), 'scala': 'Option[' in line,
+                      'go': '*' in line and 'omitempty' in line, 'python': 'Optional[' in line and 'default=None' in line}[lang]
+            if lang == 'scala' and field == 'touched_at':
+                continue      # the recorded finding kf-c04-scala-default
+            if marked != opt:
+                return '(C04) field %s (%s) with a per-language type override is written `%s`: %s' % (field, 'Option<String>' if field == 'expires_at' else ('String + serde(default)' if opt else 'String'),
+                                                                                                      line.strip()[:90], 'the optional marker is missing' if opt else 'it is marked optional')
+        return None
+    finally:
+        shutil.rmtree(top, ignore_errors=True)
+
+
+ASSOC_SRC = 'pub struct Limits;\nimpl Limits {\n    #[typeshare]\n    pub const MAX_NAME_LEN: u32 = 64;\n    pub const OTHER: u32 = 1;\n}\n#[typeshare]\npub const TOP: u32 = 3;\n'
+KF_SRC = {
+    # kf-c05-self-type: `Self` inside an annotated type is emitted as a user type called Self
+    'self': ('#[typeshare]\npub struct Node { pub next: Option<Box<Self>>, pub children: Vec<Self>, pub v: u32 }\n', 'typescript', 'ts', [], r'\bSelf\b',
+             '`Self` is written as a type called `Self`, which no definition introduces (it stands for the annotated type itself)'),
+    # kf-c05-scala-unsigned-width: the unsigned aliases cannot hold the values of the Rust types
+    'scala_unsigned': ('#[typeshare]\npub struct W { pub a: u8, pub b: u16, pub c: u32, pub d: U53 }\n', 'scala', 'scala', ['--scala-package', 'com.x'], r'type ULong = Int\b|type UInt = Int\b|type UShort = Short\b|type UByte = Byte\b',
+                       'Scala maps u8 / u16 / u32 / U53 to aliases of Byte / Short / Int / Int, which cannot hold every value of the Rust type'),
+}
+
+
+def kf_case(exe, kind):
+    srcx, lang, ext, largs, pat, msg = KF_SRC[kind]
+    top = tempfile.mkdtemp(prefix='clirun-', dir=WORK)
+    try:
+        src = os.path.join(top, 'src')
+        tree(src, {'c/src/lib.rs': srcx})
+        outp = os.path.join(top, 'out.' + ext)
+        rc, out = run(exe, ['--lang', lang] + largs + ['--output-file', outp, src], cwd=src, timeout=20)
+        if rc != 0 or not os.path.exists(outp):
+            return None
+        return msg if re.search(pat, strip_noncode(lang, open(outp).read())) else None
+    finally:
+        shutil.rmtree(top, ignore_errors=True)
+
+
+def assoc_const_case(exe):
+    top = tempfile.mkdtemp(prefix='clirun-', dir=WORK)
+    try:
+        src = os.path.join(top, 'src')
+        tree(src, {'c/src/lib.rs': ASSOC_SRC})
+        outp = os.path.join(top, 'out.ts')
+        rc, out = run(exe, ['--lang', 'typescript', '--output-file', outp, src], cwd=src, timeout=20)
+        if rc == 0 and os.path.exists(outp) and 'MAX_NAME_LEN' not in open(outp).read():
+            return '(C03) the run succeeded but the #[typeshare] associated const MAX_NAME_LEN is neither generated nor reported (silently omitted)'
+        return None
+    finally:
+        shutil.rmtree(top, ignore_errors=True)
+
+
+def scenario_extras(exe, mode_arg, payload):
+    """bound shared by C04 / C12 / C20 (the check of each property reads its own label): ONE source + ONE typeshare.toml (type mappings for two user types
+    - to `datetime` / `bytes` in Python -, Go uppercase_acronyms) x 6 languages. C12: the generated Python module, parsed by CPython, uses no helper
+    name (typing / pydantic / enum / datetime / json) that it neither imports nor defines. C20: with uppercase_acronyms = ["ID", "URL"] no Go identifier
+    keeps `Id` / `Url` (definitions, fields, alias targets, map values). C04: TypeScript keeps the payloads Option<T> and Option<Option<T>> of newtype
+    variants apart; in every language a field with a per-language type override is marked optional exactly when it is Option<T> or has serde(default).
+    C03: a #[typeshare] associated const inside an impl block is generated or reported, not silently left out."""
+    pid = os.environ.get('VERIF_PID')
+    def mine(m):
+        return m is None or pid is None or pid not in ('C03', 'C04', 'C12', 'C20') or ('(%s)' % pid) in m or not re.match(r'\(C\d\d\)', m)
+    if mode_arg == 'check':
+        if payload.get('kf'):
+            m = kf_case(exe, payload['kf'])
+            if m:
+                witness(payload, m)
+            print('input passes'); return
+        m = assoc_const_case(exe) if payload.get('assoc_const') else extras_case(exe, payload['lang'], payload['ext'], payload['largs'])
+        if m and mine(m):
+            witness(payload, m)
+        print('input passes'); return
+    for (lang, ext, largs) in WF_LANGS[:6]:
+        m = extras_case(exe, lang, ext, largs)
+        if m and mine(m):
+            witness({'lang': lang, 'ext': ext, 'largs': largs}, m)
+    m = assoc_const_case(exe)
+    if m and mine(m):
+        witness({'assoc_const': True}, m)
+    print('no failing input among 6 languages + 1 associated const')
+
+
+SCENARIOS = {'runs': scenario_runs, 'config': scenario_config, 'determinism': scenario_determinism, 'robust': scenario_robust, 'unsupported': scenario_unsupported, 'multifile': scenario_multifile, 'wellformed': scenario_wellformed, 'refnames': scenario_refnames, 'targetos': scenario_targetos, 'extras': scenario_extras}
 
 
 def main():
